@@ -25,9 +25,9 @@ import (
 	"unsafe"
 
 	cptv "github.com/TheCacophonyProject/go-cptv"
+	"github.com/TheCacophonyProject/thermal-recorder/motion"
 	"github.com/godbus/dbus"
 	yamlv1 "gopkg.in/yaml.v1"
-	"github.com/TheCacophonyProject/thermal-recorder/motion"
 )
 
 // ---------------------------------------------------------------- fake system bus
@@ -235,8 +235,8 @@ type veConn struct {
 	Dbus      []veDbusReq            `json:"dbus"`
 	SettleMs  int                    `json:"settle_ms"`
 	NoClose   bool                   `json:"noclose"`
-	HeaderCut int                    `json:"header_cut"` // >0: send only this many header bytes, then close
-	PreDbus   []string               `json:"pre_dbus"`   // service methods called before this connection is dialled
+	HeaderCut int                    `json:"header_cut"`  // >0: send only this many header bytes, then close
+	PreDbus   []string               `json:"pre_dbus"`    // service methods called before this connection is dialled
 	RmTempsAt []int                  `json:"rm_temps_at"` // payload offsets at which every *.cptv.temp in the output directory is unlinked
 }
 type veScenario struct {
